@@ -485,6 +485,45 @@ class Gen:
             L.append("subs|%d|%s|%s" % (q, ss, pp))
             L.append("subscribers|%d|%s|%s" % (q, oss, pp))
 
+        if P.get("families", True) and rnd.random() < 0.4:
+            # one required key and name, several PROVIDED interfaces of one family registered in a random order (the
+            # extendors list of every common ancestor must come out 'more general first' whatever the order), then
+            # removals in another order
+            tops = [t for t in ifaces if len(desc(t) & set(ifaces)) >= 2]
+            if tops:
+                t = rnd.choice(tops)
+                fam = sorted((desc(t) & set(ifaces)) | {t})
+                members = rnd.sample(fam, min(len(fam), rnd.randint(3, 5)))
+                r0 = rnd.randrange(nr)
+                ar0 = rnd.choice([0, 1, 1, 2])
+                req0 = [rnd.choice([None] + specs_all) for _ in range(ar0)]
+                name0 = rnd.choice(NAMES)
+                qspecs = [rnd.choice(list(desc(x)) + [x]) if x is not None else rnd.choice(specs_all) for x in req0]
+                targets = sorted({a for m_ in members for a in (anc(m_) | {m_})})
+                subs_too = rnd.random() < 0.5
+
+                def ask_family():
+                    for a in targets:
+                        emit_queries(rnd.choice(sorted(rdown(r0))), qspecs, a, name0, a)
+                for m_ in members:
+                    v = val()
+                    line = "reg|%d|%s|%d|%s|%d %d" % (r0, sreq(req0), m_, name0, v[0], v[1])
+                    L.append(line)
+                    flat.apply(line.split("|"))
+                    live.append((tuple(req0), m_))
+                    if subs_too:
+                        v = val()
+                        line = "sub|%d|%s|%d|%d %d" % (r0, sreq(req0), m_, v[0], v[1])
+                        L.append(line)
+                        flat.apply(line.split("|"))
+                    if rnd.random() < 0.5:
+                        ask_family()
+                ask_family()
+                for m_ in rnd.sample(members, rnd.randint(1, len(members))):
+                    line = "unreg|%d|%s|%d|%s|N" % (r0, sreq(req0), m_, name0)
+                    L.append(line)
+                    flat.apply(line.split("|"))
+                    ask_family()
         W = P["weights"]        # reg unreg sub unsub rbases rebuild clone
         kinds = ["reg", "unreg", "sub", "unsub", "rbases", "rebuild", "clone"]
         nsteps = rnd.randint(*(P.get("steps_big", (10, 60)) if big else P.get("steps", (5, 30))))
@@ -502,6 +541,13 @@ class Gen:
                 req = list(req)
                 if removal and rnd.random() < 0.8:
                     pass
+                elif rnd.random() < 0.35:
+                    # same required key and name, another PROVIDED interface of the same family (ancestor, descendant or
+                    # sibling under a common ancestor): the order in which a family is registered must not matter
+                    fam = set(anc(p) - {0}) | (desc(p) & set(ifaces))
+                    for a in list(anc(p) - {0}):
+                        fam |= desc(a) & set(ifaces)
+                    p = rnd.choice(sorted(fam) + [p])
                 elif req:
                     j = rnd.randrange(len(req))
                     req[j] = relative(req[j])
